@@ -1,4 +1,5 @@
 import NbioVerif.Lemmas.C08Meta
+import NbioVerif.Lemmas.C08Glue
 /-! C08: parser robustness and bounds (model level).
 
 * `c08_no_hang`        the Go-shaped index loop never runs out of fuel (fuel = |buf|+1), i.e. the
@@ -11,6 +12,9 @@ import NbioVerif.Lemmas.C08Meta
 * `c08_body_bound`     the body held for the message under construction never exceeds MaxHTTPBodySize
 * framing metadata: `c08_content_length`, `c08_chunk_size`, `c08_transfer_encoding`, `c08_trailer_names`,
   `c08_missing_lf`, `c08_missing_cr`, `c08_bare_lf_in_header`
+* `c08_no_nil_deref`   the callbacks `Parse` makes can always be consumed by the real processors' logic: no callback
+                       is made while the request/response it writes to does not exist (a nil dereference inside a
+                       callback would be a panic inside `Parse`)
 * `c08_silent_after_close` once the engine glue has closed the parser (`CloseAndClean` on error), no Parse call
                        emits an event
 -/
@@ -162,6 +166,16 @@ theorem c08_silent_after_close (g : Cfg) (p : P) (cache data : Bytes) (hs : p.st
     simp only [implParse, reduceCtorEq, if_false, List.nil_append, List.length_cons, List.length_nil]
     unfold loop
     simp [machine, block, hs, byteStep, er]
+
+/-- C08: no nil dereference in the processor glue. `ObjInv g p cur` ties the parser state to the processor ("a message
+    object exists exactly between the first event of a message and its `complete`"); it holds for a fresh parser and
+    processor, and from any (state, processor) satisfying it every `Parse` call, on every input, emits an event
+    sequence `procRun` consumes without hitting `none` (= `p.request`/`p.response` nil), and re-establishes it. -/
+theorem c08_no_nil_deref (g : Cfg) (p : P) (cache data : Bytes) (cur : Option Building) (hI : ObjInv g p cur) :
+    RunOk g cur [] (implParse (machine g) p cache data []) :=
+  implParse_objInv g p cache data cur hI
+
+theorem c08_no_nil_deref_init (g : Cfg) : ObjInv g (init g) none := objInv_init g
 
 def g0 : Cfg := { isClient := false, maxBody := 0, urlOk := fun _ => true, protoOk := fun _ => true }
 
